@@ -4,7 +4,7 @@
 use crate::jt::{arr, obj, qs, tag, tag_k, J, NONE};
 use crate::keys;
 use crate::msg::{self, Fmt};
-use jsonwebtoken::{Algorithm, DecodingKey, Header, Validation};
+use jsonwebtoken::{Algorithm, DecodingKey, Header};
 use sd_jwt_rs::issuer::ClaimsForSelectiveDisclosureStrategy as Strategy;
 use sd_jwt_rs::{SDJWTHolder, SDJWTIssuer, SDJWTVerifier};
 use serde_json::{Map, Value};
@@ -143,12 +143,10 @@ pub fn hk_json(hk: Option<&str>) -> String {
 }
 /// Independent signature check of a JWT text with jsonwebtoken directly (no claim validation).
 pub fn sig_ok(jwt: &str, key: &DecodingKey, alg: &str) -> bool {
+    // the signature alone (jsonwebtoken::decode would also parse registered claims and fail on, e.g., an array-valued sub)
     let Ok(a) = alg.parse::<Algorithm>() else { return false };
-    let mut v = Validation::new(a);
-    v.validate_exp = false;
-    v.validate_aud = false;
-    v.required_spec_claims.clear();
-    jsonwebtoken::decode::<Value>(jwt, key, &v).is_ok()
+    let Some((message, signature)) = jwt.rsplit_once('.') else { return false };
+    message.split('.').count() == 2 && jsonwebtoken::crypto::verify(signature, message.as_bytes(), key, a).unwrap_or(false)
 }
 pub fn issue(ctx: &mut Ctx, issuer: &mut SDJWTIssuer, a: &IssueArgs) -> Out<String> {
     let raws: Vec<&str> = a.strat.paths.iter().map(|p| p.raw.as_str()).collect();
